@@ -1485,9 +1485,9 @@ func (c *Ctx) instrWrites(fn *ssa.Function, ins ssa.Instruction, out *WS, stack 
 		out.comps["alloc"] = arrSort(SRef, SBool)
 	case *ssa.Convert:
 		// []byte(string) allocates
-		if _, ok := t.Type().Underlying().(*types.Slice); ok {
+		if sl, ok := t.Type().Underlying().(*types.Slice); ok {
 			out.comps["alloc"] = arrSort(SRef, SBool)
-			c.wsElems("uint8", "", types.Typ[types.Uint8], out)
+			c.wsElems(c.typeKey(sl.Elem()), "", sl.Elem(), out)
 		}
 	case ssa.CallInstruction:
 		if _, isGo := ins.(*ssa.Go); isGo {
